@@ -1,8 +1,10 @@
 #!/bin/bash
 # usage: tools/try_seed.sh <patch.diff | seeded id> <check> [tier]     run one check on a scratch copy of /repo with the patch applied
 cd "$(dirname "$0")/.." || exit 2
-p="$1"; [ -f "$p" ] || p="seeded/$1/patch.diff"; [ -f "$p" ] || p="/var/tmp/cand/$1/patch.diff"; [ -f "$p" ] || p="/var/tmp/cand2/$1/patch.diff"; [ -f "$p" ] || p="/var/tmp/cand3/$1/patch.diff"; [ -f "$p" ] || p="/var/tmp/cand4/$1/patch.diff"; [ -f "$p" ] || p="/var/tmp/cand5/$1/patch.diff"; [ -f "$p" ] || { echo "no such seed: $1"; exit 2; }
+p="$1"; [ -f "$p" ] || p="seeded/$1/patch.diff"; [ -f "$p" ] || p="/var/tmp/cand/$1/patch.diff"; [ -f "$p" ] || p="/var/tmp/cand2/$1/patch.diff"; [ -f "$p" ] || p="/var/tmp/cand3/$1/patch.diff"; [ -f "$p" ] || p="/var/tmp/cand4/$1/patch.diff"; [ -f "$p" ] || p="/var/tmp/cand5/$1/patch.diff"; [ -f "$p" ] || p="/var/tmp/cand8/$1/patch.diff"; [ -f "$p" ] || { echo "no such seed: $1"; exit 2; }
 d=$(mktemp -d /var/tmp/pfsa_try.XXXXXX)
 cp -r /repo/pfhedge $d/ && patch -p1 -s -d $d -i "$(realpath $p)" && mkdir -p $d/verif && cp known_findings.json $d/verif/
+# REPAIR="relative/file.py::sed expression": undo the seeded defect on the scratch copy, to try the refactoring alone (must then be silent)
+if [ -n "$REPAIR" ]; then f="${REPAIR%%::*}"; e="${REPAIR#*::}"; cp $d/$f $d/$f.orig; sed -i -E "$e" $d/$f; diff $d/$f.orig $d/$f | head -6; rm $d/$f.orig; fi
 PFSA_REPO=$d PFSA_VERIF=$d/verif ./check "$2" "${3:-quick}" 2>&1 | tail -n "${TAIL:-6}"
 rm -rf $d
